@@ -5,6 +5,7 @@
    float conversions of the time / duration values that occur in the case,
    computed by the driver with Go's own float arithmetic. *)
 From Verif Require Import Base.Prelude Base.CborSpec Enc.CborEnc Proofs.CborEncP.
+From Verif Require Base.GoSem Gen.CborSrc.
 Open Scope N_scope.
 
 Inductive call :=
@@ -85,8 +86,45 @@ Definition run_call (tb : tables) (dst : list N) (c : call) : list N :=
   | KObjectData o => cbor_AppendObjectData dst o | KKey k => cbor_AppendKey dst k
   end.
 
+(* the translation of the current source (Gen/CborSrc.v) evaluated on the same call: for the functions srcgen
+   translates, the shard also requires translation = model on this input (for most of them that is a theorem,
+   Proofs/SrcCborP.v; for the float functions and the forwarding integer widths it is this run that ties the
+   translation to the model and, through the observed bytes, to the compiled code) *)
+Definition mk32 (b : N) : GoSem.gofl := {| GoSem.fl32 := true; GoSem.flbits := b |}.
+Definition mk64 (b : N) : GoSem.gofl := {| GoSem.fl32 := false; GoSem.flbits := b |}.
+Definition src_call (dst : list N) (c : call) : option (GoSem.res (list N)) :=
+  match c with
+  | KPrefix m n => Some (CborSrc.appendCborTypePrefix dst m n)
+  | KString s => Some (CborSrc.AppendString dst s) | KStrings l => Some (CborSrc.AppendStrings dst l)
+  | KBytes s => Some (CborSrc.AppendBytes dst s) | KHex s => Some (CborSrc.AppendHex dst s)
+  | KJSON s => Some (CborSrc.AppendEmbeddedJSON dst s) | KCBOR s => Some (CborSrc.AppendEmbeddedCBOR dst s)
+  | KBool b => Some (CborSrc.AppendBool dst b) | KBools l => Some (CborSrc.AppendBools dst l)
+  | KInt z => Some (CborSrc.AppendInt dst z) | KInt8 z => Some (CborSrc.AppendInt8 dst z) | KInt16 z => Some (CborSrc.AppendInt16 dst z)
+  | KInt32 z => Some (CborSrc.AppendInt32 dst z) | KInt64 z => Some (CborSrc.AppendInt64 dst z)
+  | KInts l => Some (CborSrc.AppendInts dst l) | KInts8 l => Some (CborSrc.AppendInts8 dst l) | KInts16 l => Some (CborSrc.AppendInts16 dst l)
+  | KInts32 l => Some (CborSrc.AppendInts32 dst l) | KInts64 l => Some (CborSrc.AppendInts64 dst l)
+  | KUint n => Some (CborSrc.AppendUint dst n) | KUint8 n => Some (CborSrc.AppendUint8 dst n) | KUint16 n => Some (CborSrc.AppendUint16 dst n)
+  | KUint32 n => Some (CborSrc.AppendUint32 dst n) | KUint64 n => Some (CborSrc.AppendUint64 dst n)
+  | KUints l => Some (CborSrc.AppendUints dst l) | KUints8 l => Some (CborSrc.AppendUints8 dst l) | KUints16 l => Some (CborSrc.AppendUints16 dst l)
+  | KUints32 l => Some (CborSrc.AppendUints32 dst l) | KUints64 l => Some (CborSrc.AppendUints64 dst l)
+  | KF32 b => Some (CborSrc.AppendFloat32 dst (mk32 b) 0%Z) | KFs32 l => Some (CborSrc.AppendFloats32 dst (map mk32 l) 0%Z)
+  | KF64 b => Some (CborSrc.AppendFloat64 dst (mk64 b) 0%Z) | KFs64 l => Some (CborSrc.AppendFloats64 dst (map mk64 l) 0%Z)
+  | KIP s => Some (CborSrc.AppendIPAddr dst s) | KMAC s => Some (CborSrc.AppendMACAddr dst s)
+  | KNil => Some (CborSrc.AppendNil dst) | KBegin => Some (CborSrc.AppendBeginMarker dst) | KEnd => Some (CborSrc.AppendEndMarker dst)
+  | KArrStart => Some (CborSrc.AppendArrayStart dst) | KArrEnd => Some (CborSrc.AppendArrayEnd dst)
+  | KArrDelim => Some (CborSrc.AppendArrayDelim dst) | KLineBreak => Some (CborSrc.AppendLineBreak dst)
+  | KObjectData o => Some (CborSrc.AppendObjectData dst o) | KKey k => Some (CborSrc.AppendKey dst k)
+  | _ => None
+  end.
+
+(* 999 is not a byte: a case on which the translated source and the model disagree can match no observation *)
 Definition c09_run (c : tables * (list N * call)) : list N :=
-  run_call (fst c) (fst (snd c)) (snd (snd c)).
+  let m := run_call (fst c) (fst (snd c)) (snd (snd c)) in
+  match src_call (fst (snd c)) (snd (snd c)) with
+  | None => m
+  | Some (GoSem.Ok b) => if list_eqb N.eqb b m then m else [999]
+  | Some _ => [999]
+  end.
 
 Definition c09_eqb : list N -> list N -> bool := list_eqb N.eqb.
 
